@@ -347,10 +347,11 @@ def run(ctx):
                 'polynomial weight and explicit nqp; asymmetric pairs of different degree/multiplicity on a common mesh with the common mesh or a '
                 'refinement as quadgrid; 2-D/3-D Kronecker and generic (identity geometry, strings, predefined vforms) paths with mixed degrees; '
                 'load vectors / inner products / integrals with polynomial data in 1-3 dims with and without (bilinear, orientation-reversing) geometry; '
+                'tensor spaces with NEARLY EQUAL directions (knot vectors within the 1e-8 allclose window of KnotVector.__eq__: tiny domains, 1e-9 shifts); '
                 'integer matrices through det_and_inv/inverses/determinants; call HISTORIES: per knot-vector pair on a common mesh 3-5 calls in one process mixing weighted/unweighted 1-D forms, '
                 'asym forms, 2-D mass/stiffness, inner_products/integrate, load_vector, each compared with the stateless model of that call, with a bitwise monitor of the '
                 'arrays returned by make_iterated_quadrature/gauss_rule; fast-assembler histories: 3-6 mass_fast/stiffness_fast calls on spaces of different sizes '
-                '(2-D and small 3-D), each sequence in one fresh process, every result vs the Gauss assembler at 100*tol*max|A|.  non-trivial = more than one span or degree >= 1; distinct by request line')
+                '(2-D and small 3-D), each sequence in one fresh process, plus requested-tolerance sweeps 1e-4..1e-13 (3-D twisted box, 2-D), every result vs the Gauss assembler at 32*tol*max(1,max|A|).  non-trivial = more than one span or degree >= 1; distinct by request line')
     req, exp, meta = [], [], []
 
     def add(r, thunk, m):
@@ -623,6 +624,47 @@ def run(ctx):
                 continue
             tp_case(kvs, kind, 'kron')
             tp_case(kvs, kind, ('generic', 'string', 'vform')[it % 3])
+
+    # ---- tensor spaces whose directions have NEARLY EQUAL but different knot vectors ------------------------------------
+    # (same degree and length, knots within KnotVector.__eq__'s allclose window 1e-8): every direction must still get its own
+    # 1-D factor.  (a) tiny domains (2^-27..2^-33) with uniform vs graded breakpoints, (b) unit scale with one breakpoint
+    # shifted by 2e-9..8e-9.  Compared with the exact-Rat model; its bound is relative to the entries, so scale-free.
+    def near_equal_kvs():
+        p = int(rng.integers(1, 4)); nsp = int(rng.integers(2, 5))
+        mult = [int(rng.integers(1, p + 1)) for _ in range(nsp - 1)]
+
+        def mk(mesh):
+            return bspline.KnotVector(np.concatenate(([mesh[0]] * (p + 1), np.repeat(mesh[1:-1], mult), [mesh[-1]] * (p + 1))).astype(float), p)
+        if rng.integers(0, 2) == 0:
+            sc = 2.0 ** -int(rng.integers(27, 34))
+            m1 = np.linspace(0.0, 1.0, nsp + 1) * sc
+            cuts = np.sort(rng.permutation(np.arange(1, 16))[:nsp - 1]) / 16.0
+            m2 = np.concatenate(([0.0], cuts, [1.0])) * sc
+            if np.array_equal(m1, m2):
+                m2[1] *= 0.75
+            tag = 'tiny domain'
+        else:
+            m1 = np.concatenate(([0.0], np.cumsum(rng.integers(1, 9, size=nsp).astype(float) / 8)))
+            m2 = m1.copy()
+            k = int(rng.integers(1, nsp))
+            m2[k] += float(rng.choice([-1.0, 1.0])) * float(rng.uniform(2e-9, 8e-9))
+            tag = 'knot shifted by <1e-8'
+        return mk(m1), mk(m2), tag
+
+    nne = 6 if quick else 60
+    for it in range(nne):
+        kva, kvb, tag = near_equal_kvs()
+        ctx.count('near-equal knot vector pairs (%s)' % tag)
+        if not (kva == kvb) or np.array_equal(kva.kv, kvb.kv):
+            ctx.count('near-equal generator produced a pair outside the __eq__ window')
+        for kind in ('mass', 'stiff'):
+            tp_case((kva, kvb), kind, 'kron')
+            tp_case((kvb, kva), kind, 'bsp')
+        if it % 3 == 0:
+            tp_case((kva, kvb, kva), 'mass', 'kron')
+            tp_case((kvb, kva, kvb), 'stiff', 'bsp')
+        if it % 3 == 1:
+            tp_case((kva, kvb), 'mass', 'generic')
 
     # ---- stream: load vectors / inner products / integrals ---------------------------------------
     def bilinear_geo(kvs):
@@ -1344,9 +1386,13 @@ def run(ctx):
         "    try:\n"
         "        A = getattr(assemble, c['fn'])(kvs, geo=g, tol=c['tol'], verbose=0).toarray()\n"
         "        B = getattr(assemble, c['fn'][:-5])(kvs, geo=g).toarray()\n"
-        "        out.append([float(np.abs(A - B).max()) if A.shape == B.shape else float('inf'), float(np.abs(B).max())])\n"
+        "        e1 = float(np.abs(A - B).max()) if A.shape == B.shape else float('inf'); mx = float(np.abs(B).max()); e2 = None\n"
+        "        if not e1 <= 8 * c['tol'] * max(1.0, mx):\n"
+        "            A2 = getattr(assemble, c['fn'])(kvs, geo=g, tol=c['tol'], verbose=0, skipcount=10**6).toarray()\n"
+        "            e2 = float(np.abs(A2 - B).max())\n"
+        "        out.append([e1, mx, e2])\n"
         "    except Exception as ex:\n"
-        "        out.append(['%s: %s' % (type(ex).__name__, str(ex)[:100]), 1.0])\n"
+        "        out.append(['%s: %s' % (type(ex).__name__, str(ex)[:100]), 1.0, None])\n"
         "print('RES ' + json.dumps(out))\n")
 
     def fast_call(dim, small=None):
@@ -1359,10 +1405,34 @@ def run(ctx):
                 'ns': [int(orng.integers(lo, hi)) for _ in range(2)],
                 'geo': ('bspline_quarter_annulus', 'quarter_annulus', 'perturbed_square')[int(orng.integers(0, 3))], 'tol': 1e-10}
 
+    # requested-tolerance sweep (property: "within a small multiple of its REQUESTED tolerance on smooth geometries"): the same
+    # space assembled with tol = 1e-4 .. 1e-13 (shuffled) by mass_fast and stiffness_fast, on geometries whose matrices do not
+    # have tiny Kronecker rank (3-D twisted box: the entrywise error tracks the ACA tolerance; measured 0.1..4.3 * tol on the
+    # unchanged tree for every tol) and on 2-D perturbed square / NURBS annulus.  Bound FAST_C * tol * max(1,max|A|) + 2^-40 max|A|.
+    FAST_C = 32.0
+
+    def fast_bound(c, mx):
+        return FAST_C * c['tol'] * max(1.0, mx) + 2.0 ** -40 * mx
+
+    def sweep_seq(k):
+        fn = ('stiffness_fast', 'mass_fast')[k % 2]
+        if (k // 2) % 2 == 0:
+            pp = int(orng.integers(1, 4)); nn = int(orng.integers(4, 8 if pp < 3 else 6))
+            base = {'fn': fn, 'ps': [pp, pp, pp] if orng.integers(0, 2) else [pp, max(1, pp - 1), pp],
+                    'ns': [nn, nn, nn] if orng.integers(0, 2) else [nn, nn - 1, max(4, nn - 2)], 'geo': 'twisted_box'}
+        else:
+            base = {'fn': fn, 'ps': [int(orng.integers(1, 4)) for _ in range(2)], 'ns': [int(orng.integers(4, 9)) for _ in range(2)],
+                    'geo': ('perturbed_square', 'quarter_annulus')[int(orng.integers(0, 2))]}
+        tols = [1e-4, 1e-6, 1e-8, 1e-10, 1e-12, 1e-13]
+        return [dict(base, tol=tols[j], sweep=True) for j in orng.permutation(6)]
+
     nfh = 8 if quick else 60
-    for it in range(nfh):
+    nsw = 4 if quick else 24
+    for it in range(nfh + nsw):
         kind = it % 4
-        if kind == 0:        # same small call repeated after a few small assemblies
+        if it >= nfh:
+            seq = sweep_seq(it - nfh)
+        elif kind == 0:        # same small call repeated after a few small assemblies
             x = fast_call(2, small=True); x['fn'] = 'stiffness_fast'
             seq = [x] + [dict(fast_call(2, small=True), fn='mass_fast') for _ in range(int(orng.integers(2, 5)))] + [x]
         elif kind == 1:      # small after large
@@ -1382,27 +1452,35 @@ def run(ctx):
             detail = '' if line else pr.stderr[-300:]
         except Exception as ex:
             res, detail = None, '%s: %s' % (type(ex).__name__, ex)
-        ctx.count('fast-assembler histories (fresh process each)')
+        ctx.count('fast-assembler tol sweeps (fresh process each)' if it >= nfh else 'fast-assembler histories (fresh process each)')
         ctx.count('fast-assembler history calls', len(seq))
         nor += len(seq)
         if res is None or len(res) != len(seq):
             oracle_fail('gal-hist:fast-runner', 'fast-assembler history did not complete: %s' % detail, {'sequence': seq})
             continue
-        for k, ((err, mx), c) in enumerate(zip(res, seq)):
-            okc = not isinstance(err, str) and err <= 100 * c['tol'] * max(1.0, mx)
+        for k, ((err, mx, err_noskip), c) in enumerate(zip(res, seq)):
+            okc = not isinstance(err, str) and err <= fast_bound(c, mx)
             if not okc:
                 first_same = next((j for j in range(k) if seq[j] == c), None)
                 extra = ''
-                if first_same is not None and not isinstance(res[first_same][0], str) and res[first_same][0] <= 100 * c['tol'] * max(1.0, mx):
+                if first_same is not None and not isinstance(res[first_same][0], str) and res[first_same][0] <= fast_bound(c, mx):
                     extra = ' (the identical call #%d earlier in the same process was correct: error %r)' % (first_same + 1, res[first_same][0])
-                ctx.violation('gal-hist:' + c['fn'],
-                              'call #%d of the fresh-process sequence %s: %s(degrees %s, spans %s, geo=%s, tol=%g) differs from the Gauss assembler by %r (max|A| = %r > 100*tol*max|A|)%s'
-                              % (k + 1, [cc['fn'] for cc in seq[:k + 1]], c['fn'], c['ps'], c['ns'], c['geo'], c['tol'], err, mx, extra),
+                if c.get('sweep') and not isinstance(err, str):
+                    extra += ' = %.0f * requested tol; errors/tol of the whole sweep: %s' % (
+                        err / c['tol'], ['%g: %.3g' % (cc['tol'], (rr[0] / cc['tol']) if not isinstance(rr[0], str) else float('nan')) for cc, rr in zip(seq, res)])
+                # classify: the same call re-issued (same process, right after) with skipcount=10**6, i.e. never stopping on skipped rows
+                key_ = ('gal-fast-tol:' if c.get('sweep') else 'gal-hist:') + c['fn']
+                if len(c['ps']) == 3 and err_noskip is not None and err_noskip <= fast_bound(c, mx):
+                    key_ = 'gal:aca-slice-skip'
+                    extra += '; with skipcount=10**6 the same call is within the bound (error %r): premature stop of the slice ACA on skipped rows' % err_noskip
+                ctx.violation(key_,
+                              'call #%d of the fresh-process sequence %s: %s(degrees %s, spans %s, geo=%s, tol=%g) differs from the Gauss assembler by %r (max|A| = %r; bound %g*tol*max(1,max|A|) + 2^-40 max|A|)%s'
+                              % (k + 1, [cc['fn'] for cc in seq[:k + 1]], c['fn'], c['ps'], c['ns'], c['geo'], c['tol'], err, mx, FAST_C, extra),
                               {'sequence (run in this order in one fresh process; make_knots(p,0,1,n) per axis)': seq[:k + 1],
                                'errors_per_call': res[:k + 1]}, True)
                 break
     ctx.extra['oracle_cross_checks'] = nor
-    ctx.notes.append('mass_fast/stiffness_fast (C++ ACA) are compared with the Gauss assembler at 100*tol*max|A| only (float-level evidence, no Lean statement)')
+    ctx.notes.append('mass_fast/stiffness_fast (C++ ACA) are compared with the Gauss assembler at 100*tol*max|A| (in-process random stream, tol=1e-10) and at 32*tol*max(1,max|A|) + 2^-40 max|A| (fresh-process histories and requested-tolerance sweeps 1e-4..1e-13): float-level evidence, no Lean statement')
 
     # ---- excluded point of biform_1d_asym: quadgrid coarser than a knot vector (documented behaviour) ----
     kv1 = bspline.make_knots(1, 0.0, 1.0, 1); kv2 = bspline.make_knots(1, 0.0, 1.0, 2)
